@@ -14,12 +14,13 @@ RULE = ("pairs of writer configurations (version 1.2/2.0, wrap on/off, fmt / col
         "compared exactly. Objects: generated LASFile objects (harness/lasobj.py: duplicate / blank / case-variant mnemonics, all value "
         "kinds, widest-item layouts, plus ~Well values containing ':') and every file of tests/examples re-read (unreadable / unwritable "
         "files and outputs unreadable under BOTH configurations are counted and skipped). Correspondence: for generated objects the header "
-        "text of each output vs model wr.header. non-trivial = the two configurations differ in version, or in wrap, or in at least three "
-        "other options")
+        "text of each output vs model wr.header. non-trivial = the two configurations differ in version (the ~Well layout on disk "
+        "is swapped) or in wrap")
 TRUSTED = ["the data-section half of the property (numeric formatting, textwrap, data reader) is checked by the oracle on the real code only; "
            "its models/theorems belong to C01/C02/C10/C11",
            "Python %-formatting: formats of equal precision print the same digits whatever the field width"]
-ASSUMPTIONS = ["both numeric formats have the same precision; spacers are non-empty white space (an empty spacer with len_numeric_field=-1 glues "
+ASSUMPTIONS = ["curve data is numeric (files with text curves: only the headers are compared; a text cell containing blanks is not "
+               "re-readable under any configuration)", "both numeric formats have the same precision; spacers are non-empty white space (an empty spacer with len_numeric_field=-1 glues "
                "columns together)", "~Well values contain no ':' (known finding well-colon-value-1.2 otherwise)",
                "outputs that the reader rejects under BOTH configurations (e.g. text curves containing blanks) are outside the property"]
 
@@ -71,15 +72,37 @@ def strip_vers_wrap(canon):
     return out
 
 
+KNOWN_DESCR_SPEC = {"version": [], "well": [["LOC", "", ["s", "A"], "location: site"]], "params": [],
+                    "curves": [["DEPT", "M", ["s", ""], "", [(1.0).hex(), (2.0).hex(), (3.0).hex()]]], "other": ""}
+KNOWN_DLM_SPEC = {"version": [], "version_edit": {"DLM": ["", ["s", "COMMA"], "Column Data Section Delimiter"]}, "well": [], "params": [],
+                  "curves": [["DEPT", "M", ["s", ""], "", [(1.0).hex(), (2.0).hex(), (3.0).hex()]],
+                             ["A", "", ["s", ""], "", [(4.0).hex(), (5.0).hex(), (6.0).hex()]],
+                             ["B", "", ["s", ""], "", [(7.0).hex(), (8.0).hex(), (9.0).hex()]]], "other": ""}
+
+
+def dlm_of(las):
+    try:
+        return str(las.version["DLM"].value)
+    except Exception:
+        return None
+
+
 def classify(failure):
     d = failure.get("detail") or {}
+    c = failure["case"]
+    if failure["clause"] in ("one-output-unreadable", "data-config-independence", "data-version-swap") \
+            and (c.get("dlm") or "SPACE").upper() not in ("SPACE", "") and bool(c["a"]["wrap"]) != bool(c["b"]["wrap"]):
+        return "dlm-not-space-wrapped"
     if failure["clause"] == "version-swap" and d.get("section") == "Well" and ":" in (d.get("orig_value") or ""):
         return "well-colon-value-1.2"
+    if failure["clause"] == "version-swap" and d.get("section") == "Well" and ":" in (d.get("orig_descr") or ""):
+        return "well-colon-descr-2.0"
     return None
 
 
-def compare(run, make, a, b, case, origs):
-    """write twins under a and b, re-read, compare. `make()` builds a fresh twin. Returns the two texts (or None)."""
+def compare(run, make, a, b, case, origs, numeric=True):
+    """write twins under a and b, re-read, compare. `make()` builds a fresh twin. Returns the two texts (or None).
+    numeric=False (text curves): the data section is outside the property, only the headers are re-read and compared."""
     import lasio
     try:
         ta = write(make(), a)
@@ -90,11 +113,11 @@ def compare(run, make, a, b, case, origs):
     ra = rb = None
     ea = eb = None
     try:
-        ra = lasio.read(ta, mnemonic_case="preserve")
+        ra = lasio.read(ta, mnemonic_case="preserve", ignore_data=not numeric)
     except Exception as e:
         ea = repr(e)
     try:
-        rb = lasio.read(tb, mnemonic_case="preserve")
+        rb = lasio.read(tb, mnemonic_case="preserve", ignore_data=not numeric)
     except Exception as e:
         eb = repr(e)
     if ra is None and rb is None:
@@ -121,7 +144,7 @@ def compare(run, make, a, b, case, origs):
                 run.fail(clause, case, {"section": k, "index": i, "a": p, "b": q,
                                         "orig_value": ov[i][0] if ov and len(ov) == len(xa) else None,
                                         "orig_descr": ov[i][1] if ov and len(ov) == len(xa) else None})
-    if lo.canon_data(ra) != lo.canon_data(rb):
+    if numeric and lo.canon_data(ra) != lo.canon_data(rb):
         run.fail("data-" + clause, case, {"a": lo.canon_data(ra)[:3], "b": lo.canon_data(rb)[:3]})
     return ta, tb
 
@@ -138,9 +161,7 @@ def orig_values(las):
 
 
 def nontrivial(a, b):
-    if vkey(a["version"]) != vkey(b["version"]) or a["wrap"] != b["wrap"]:
-        return True
-    return sum(1 for k in a if a.get(k) != b.get(k)) + sum(1 for k in b if k not in a) >= 3
+    return vkey(a["version"]) != vkey(b["version"]) or a["wrap"] != b["wrap"]
 
 
 def model_header(run, spec, cfg, text, case, pend):
@@ -159,7 +180,7 @@ def flush(run, pend):
     if run.model is None or not pend:
         pend.clear()
         return
-    ans = run.model.ask([p[1] for p in pend], chunk=64)
+    ans = lo.ask(run.model, [p[1] for p in pend])
     for (case, req, text, dsh), m in zip(pend, ans):
         run.traces += 1
         ok = isinstance(m, dict) and "lines" in m
@@ -179,7 +200,7 @@ def corpus_files():
 
 
 def run_spec(run, spec, a, b, tag, pend, with_model=True):
-    case = {"spec": spec, "a": a, "b": b}
+    case = {"spec": spec, "a": a, "b": b, "dlm": dlm_of(lo.build(spec))}
     run.case(case, nontrivial=nontrivial(a, b), tags=[tag, "versions=%s/%s" % (vkey(a["version"]), vkey(b["version"])),
                                                     "wrap=%s/%s" % (a["wrap"], b["wrap"])])
     pre = lo.build(spec)
@@ -200,12 +221,21 @@ def run(run):
                 mnemonics_header=False, data_section_header="~ASCII")
     # the known finding, re-run through the oracle on every run
     run_spec(run, KNOWN_SPEC, dict(base, version=1.2), dict(base, version=2), "known-input", pend)
+    # mirror image of the known finding (reported): a ~Well DESCRIPTION containing ':' written as 2.0
+    run_spec(run, KNOWN_DESCR_SPEC, dict(base, version=1.2), dict(base, version=2), "colon-descr-input", pend)
+    # genuine defect found by this check (reported): ~Version DLM other than SPACE is written as it is while the data is
+    # blank-separated; the wrapped output is then split at the declared delimiter
+    run_spec(run, KNOWN_DLM_SPEC, dict(base, version=2, wrap=False), dict(base, version=2, wrap=True), "dlm-input", pend)
     # generated objects
     for i in range(run.budget(1500, 30000)):
         spec = lo.gen_spec(run.rng, ncurves=run.rng.choice([1, 2, 3, 5, 9]))
         if i % 10 == 0:
             spec["well"] = spec["well"] + [[lo.gen_mnemonic(run.rng, lo.AVOID["Well"]), lo.gen_unit(run.rng),
                                             ["s", run.rng.choice(["12:30", "13/05/2001 08:15:00", "a: b", "x :y"])], lo.gen_text(run.rng)]]
+        if i % 10 == 5:
+            k = run.rng.choice(["version", "well", "params"])
+            spec[k] = spec[k] + [[lo.gen_mnemonic(run.rng, lo.AVOID["Version"] + lo.AVOID["Well"]), lo.gen_unit(run.rng),
+                                  lo.gen_value(run.rng), run.rng.choice(["location: site", "a :b", "hh:mm"])]]
         a, b = gen_pair(run.rng)
         run_spec(run, spec, a, b, "generated", pend)
         if len(pend) >= 512:
@@ -221,13 +251,19 @@ def run(run):
             run.dist["corpus-unreadable"] += 1
             continue
         origs = orig_values(probe)
+        try:
+            numeric = probe.data.dtype.kind == "f"
+        except Exception:
+            numeric = True
+        if not numeric:
+            run.dist["corpus-text-curves(header-only)"] += 1
         for j in range(run.budget(3, 12)):
             a, b = gen_pair(run.rng)
             if j == 0:
                 a, b = dict(base, version=1.2), dict(base, version=2)
-            case = {"file": rel, "a": a, "b": b}
+            case = {"file": rel, "a": a, "b": b, "dlm": dlm_of(probe)}
             run.case(case, nontrivial=nontrivial(a, b), tags=["corpus", "versions=%s/%s" % (vkey(a["version"]), vkey(b["version"]))])
-            res = compare(run, lambda: lasio.read(path, mnemonic_case="preserve"), a, b, case, origs)
+            res = compare(run, lambda: lasio.read(path, mnemonic_case="preserve"), a, b, case, origs, numeric=numeric)
             if res is None:
                 skipped += 1
     run.dist["corpus-pairs-unwritable"] = skipped
@@ -244,18 +280,21 @@ def still_fails(spec_or_file, a, b):
 
         def fail(self, clause, case, detail=None):
             f = dict(clause=clause, case=case, detail=detail)
-            if classify(f) is None:
+            kid = classify(f)
+            if kid is None or kid not in fw.known_ids(ID):
                 self.failures.append(f)
     r = R()
     try:
         if isinstance(spec_or_file, dict):
             pre = lo.build(spec_or_file)
             lo.pre_write_update(pre)
-            compare(r, lambda: lo.build(spec_or_file), a, b, {"spec": spec_or_file, "a": a, "b": b}, orig_values(pre))
+            compare(r, lambda: lo.build(spec_or_file), a, b, {"spec": spec_or_file, "a": a, "b": b, "dlm": dlm_of(pre)}, orig_values(pre))
         else:
             path = os.path.join(fw.REPO, "tests", "examples", spec_or_file)
             probe = lasio.read(path, mnemonic_case="preserve")
-            compare(r, lambda: lasio.read(path, mnemonic_case="preserve"), a, b, {"file": spec_or_file, "a": a, "b": b}, orig_values(probe))
+            compare(r, lambda: lasio.read(path, mnemonic_case="preserve"), a, b, {"file": spec_or_file, "a": a, "b": b, "dlm": dlm_of(probe)},
+                    orig_values(probe),
+                    numeric=probe.data.dtype.kind == "f")
     except Exception:
         return None
     return r.failures[0] if r.failures else None
